@@ -6,6 +6,9 @@ assumed; its calls are logged as ghost state).  The time grid np.arange(0, n / f
 from . import contract
 from vf.values import BOOL, INT, REAL, XR, STR
 
+# extra keyword arguments of the plot functions (each may be present or absent): labels, colours, figure size
+KW = ('dict', {'xlabel': STR, 'ylabel': STR, 'colors': ('tuple', ['opaque', 'opaque'])})
+KWP = ('dict', {'xlabel': STR, 'ylabel': STR, 'color': 'opaque', 'figsize': 'opaque'})
 PTS = "'neurodsp.plts.plot_time_series:markers'"
 PCA = "'bycycle.plts.cyclepoints.plot_cyclepoints_array'"
 
@@ -110,7 +113,7 @@ def _array_cases():
     kinds = ('peaks', 'troughs', 'rises', 'decays')
     for label, given, plot_sig in (('all-kinds', kinds, False), ('all-kinds', kinds, True), ('extrema-only', kinds[:2], False),
                                   ('zerox-only', kinds[2:], True), ('no-kinds', (), True)):
-        params = {'sig': ('arr', REAL), 'fs': REAL, 'plot_sig': ('const', plot_sig), 'ax': 'opaque', 'kwargs': ('dict', {}),
+        params = {'sig': ('arr', REAL), 'fs': REAL, 'plot_sig': ('const', plot_sig), 'ax': 'opaque', 'kwargs': KW,
                   'xlim': ('derived', _grid_window, ('tuple', [REAL, REAL]))}
         for k in kinds:
             params[k] = ('arr', INT) if k in given else 'none'
@@ -126,7 +129,7 @@ def _array_cases():
     for label, given in (('all-kinds', kinds), ('extrema-only', kinds[:2]), ('zerox-only', kinds[2:]), ('peaks-only', kinds[:1]), ('no-kinds', ())):
         for plot_sig in (False, True):
             params = {'sig': ('arr', REAL), 'fs': REAL, 'plot_sig': ('const', plot_sig), 'xlim': 'none', 'ax': 'opaque',
-                      'kwargs': ('dict', {})}
+                      'kwargs': KW}
             for k in kinds:
                 params[k] = ('arr', INT) if k in given else 'none'
             out.append(dict(
@@ -205,7 +208,7 @@ def _df_cases():
                 out.append(dict(
                     label='%s-centred,extrema=%s,zerox=%s,plot_sig=%s,xlim=%s' % (centre, pe, pz, ps, 'grid' if grid else 'None'), **extra,
                     params={'df_samples': ('frame', cols), 'sig': ('arr', REAL), 'fs': REAL, 'plot_sig': ('const', ps),
-                            'plot_extrema': ('const', pe), 'plot_zerox': ('const', pz), 'ax': 'opaque', 'kwargs': ('dict', {}),
+                            'plot_extrema': ('const', pe), 'plot_zerox': ('const', pz), 'ax': 'opaque', 'kwargs': KW,
                             'xlim': ('derived', _grid_window, ('tuple', [REAL, REAL])) if grid else 'none'},
                     requires=["fs > 0"] + (["len(sig) >= 2"] if not grid else
                                            ["0 <= xlim_first and xlim_first < xlim_stop and xlim_stop <= len(sig)"]),
@@ -233,7 +236,7 @@ def _param_cases():
             out.append(dict(
                 label='%s-centred,%s,xlim=None,interp=True' % (centre, param),
                 params={'df_features': ('frame', cols), 'sig': ('arr', REAL), 'fs': REAL, 'burst_param': ('const', param),
-                        'thresh': REAL, 'xlim': 'none', 'interp': ('const', True), 'ax': 'opaque', 'kwargs': ('dict', {})},
+                        'thresh': REAL, 'xlim': 'none', 'interp': ('const', True), 'ax': 'opaque', 'kwargs': KWP},
                 requires=["fs > 0", "len(sig) >= 2",
                           "forall(i, 0 <= i < len(df_features), 0 <= df_features['sample_%s'][i] and "
                           "df_features['sample_%s'][i] < len(sig))" % (centre, centre),
